@@ -16,6 +16,10 @@ pub struct SenderMon {
     pub peer_syn_seen: bool,
     pub peer_syn_win: Option<u16>,
     pub max_edge: Option<u32>,
+    /// right edge given by the segment delivered LAST (ACK number + window)
+    pub last_edge: Option<u32>,
+    /// highest acknowledgment number the peer has delivered to this endpoint
+    pub max_ack: Option<u32>,
     pub highest_sent: Option<u32>,
     pub fin_seq: Option<u32>,
     pub segs: u64,
@@ -41,6 +45,10 @@ pub struct EmitCtx<'a> {
     /// the device limits bursts (DeviceCapabilities::max_burst_size): the stack clamps the window
     /// it advertises, so the field may be SMALLER than the free space (never larger)
     pub window_clamped_by_device: bool,
+    /// the peer's segments reach the socket in the order the peer made them and every one is
+    /// acceptable (tcp1 sender mode without stale replays): NEW data must then lie within the
+    /// window of the segment delivered last, not just within the highest edge ever given
+    pub strict_latest_window: bool,
 }
 
 impl SenderMon {
@@ -75,7 +83,12 @@ impl SenderMon {
                     _ => 0,
                 }
             };
+            m.max_ack = Some(match m.max_ack {
+                Some(a) if wc::seq_lt(t.ack, a) => a,
+                _ => t.ack,
+            });
             let edge = t.ack.wrapping_add((t.win as u32) << shift);
+            m.last_edge = Some(edge);
             m.max_edge = Some(match m.max_edge {
                 Some(e) if wc::seq_lt(edge, e) => e,
                 _ => edge,
@@ -182,7 +195,10 @@ impl SenderMon {
         let is_keepalive = c.keep_alive
             && t.payload.len() == 1
             && t.payload[0] == 0
-            && m.highest_sent.map_or(false, |h| t.seq.wrapping_add(1) == h || wc::seq_lt(t.seq, h));
+            && m.highest_sent.map_or(false, |h| t.seq.wrapping_add(1) == h || wc::seq_lt(t.seq, h))
+            // a keep-alive's garbage octet sits on a sequence number the peer has already
+            // acknowledged; on an unacknowledged one it would be a retransmission with altered data
+            && m.max_ack.map_or(false, |a| !wc::seq_lt(a, t.seq.wrapping_add(1)));
         if plen > 0 && !is_keepalive {
             m.data_segs += 1;
             // (a) payload equals the application's bytes for those sequence numbers
@@ -241,6 +257,21 @@ impl SenderMon {
                             wc::seq_diff(end, edge)
                         ),
                     ));
+                }
+            }
+            // (c') with an in-order peer: new data within the LATEST window
+            if c.strict_latest_window {
+                if let (Some(le), Some(h)) = (m.last_edge, m.highest_sent) {
+                    let is_new = !wc::seq_lt(t.seq, h);
+                    // a zero-window probe is one octet at SND.NXT, which lies AT or (after the
+                    // peer shrank its window over data in flight) BEYOND the latest edge
+                    let is_probe = plen == 1 && !wc::seq_lt(t.seq, le);
+                    if is_new && !is_probe && wc::seq_lt(le, end) {
+                        v.push(Viol::new(
+                            "C05/beyond-latest-window/new-data",
+                            format!("{} sent new data seq {}..{} but the segment delivered last gave the right edge {} ({} bytes beyond)", who, t.seq, end, le, wc::seq_diff(end, le)),
+                        ));
+                    }
                 }
             }
             // (d) contiguity of new data
